@@ -121,7 +121,16 @@ def check(ctx):
                 "what": "concurrent admin actors + traffic against the real code: " + cls[0],
                 "test": "TestVerifRace", "env": env, "report": cls[1]})
             break
-    ctx.cov["concurrent_admin_workloads"] = len(runs)
+    if not any(v["kind"].startswith("concurrent") for v in ctx.violations):
+        # simultaneous adds of ONE name: exactly one is created, the name is listed once
+        env = {"VERIF_DUP_ROUNDS": str(4000 if ctx.thorough() else 500)}
+        rc, out = c12.run_workload(ctx, hel, "TestVerifDupAdd", env)
+        cls = c12.classify(rc, out)
+        if cls:
+            C.violation(ctx, "concurrent-" + cls[0], {
+                "what": "simultaneous admin adds of one name against the real code: " + cls[0],
+                "test": "TestVerifDupAdd", "env": env, "report": cls[1]})
+    ctx.cov["concurrent_admin_workloads"] = len(runs) + 1
     kinds = {}
     nontriv = set()
     if bad == 0:
